@@ -3,7 +3,9 @@ import collections
 import copy
 import sys
 
-import lena
+import lena.context
+import lena.core
+import lena.flow
 from lena.core import LenaTypeError, LenaValueError
 
 
